@@ -1,5 +1,5 @@
 import Percival.Driver.Loop
-import Percival.Spec.SigV4
+import Percival.Spec.AwsRequests
 import Percival.Model.AwsSign
 /-!
 `pmodel aws`.  State = the scripted clock.  L1 part: the strings the *published* algorithm
@@ -28,29 +28,10 @@ def showModel : Option Headers → String
   | some h => showHeaders h.xAmzContentSha256 h.xAmzDate h.authorization
   | none => "fail"
 
-def hostHdr : Bytes := ascii "Host"
-def signed3 : List Bytes := [ascii "Host", ascii "X-Amz-Content-SHA256", ascii "X-Amz-Date"]
-
-/-- decimal rendering of a header/query value (`Content-Length`, `X-Amz-Expires`) for the spec side -/
+/-- decimal rendering by Lean's library (independent of the model's `%d`) -/
 def dec (i : Int) : Bytes := ascii (toString i)
 
-/-- the request documented for `aws_sign_s3_headers` -/
-def s3Request (method bucket path : Bytes) (body : Option Bytes) (ts sha : Bytes) : Request :=
-  { method := method, path := path,
-    headers := [(ascii "Host", bucket ++ ascii ".s3.amazonaws.com"),
-                (ascii "X-Amz-Date", ts),
-                (ascii "X-Amz-Content-SHA256", sha)] ++
-               (match body with
-                | some b => [(ascii "Content-Length", dec b.length)]
-                | none => []),
-    payload := .signed (body.getD []) }
-
-def svcRequest (host : Bytes) (body : Option Bytes) (ts sha : Bytes) (extra : List (Bytes × Bytes)) :
-    Request :=
-  { method := ascii "POST", path := ascii "/",
-    headers := [(ascii "Host", host), (ascii "X-Amz-Date", ts), (ascii "X-Amz-Content-SHA256", sha)] ++
-               extra ++ [(ascii "Content-Length", dec (body.getD []).length)],
-    payload := .signed (body.getD []) }
+def clen (body : Option Bytes) : Bytes := dec (body.getD []).length
 
 /-- published examples: Amazon S3 API reference (examplebucket, 20130524T000000Z) and the
     general SigV4 documentation / test suite (20150830T123600Z) -/
@@ -149,7 +130,8 @@ def step (now : St) (toks : List String) : St × String :=
           | none => "fail"
           | some (_, ts) =>
             let sha := hex (Sha256.hash (body.getD []))
-            showHeaders sha ts (authorization k s ts r (ascii "s3") (s3Request m b p body ts sha) signed3)
+            showHeaders sha ts (authorization k s ts r (ascii "s3") (AwsRequests.s3 m b p body ts sha (clen body))
+              AwsRequests.signedBasic)
         (now, s!"{l1} | {l2}")
       | _, _, _, _, _, _, _ => (now, "bad-op")
   | ["s3q", keyId, secret, region, method, bucket, path, expiry] =>
@@ -164,10 +146,8 @@ def step (now : St) (toks : List String) : St × String :=
           match clock now with
           | none => "fail"
           | some (_, ts) =>
-            let req : Request := {
-              method := m, path := p,
-              headers := [(hostHdr, b ++ ascii ".s3.amazonaws.com")], payload := .unsigned }
-            s!"ok {hexOfBytes (presignedQuery k s ts r (ascii "s3") (dec e) req [hostHdr])}"
+            s!"ok {hexOfBytes (presignedQuery k s ts r (ascii "s3") (dec e) (AwsRequests.s3Url m b p)
+              AwsRequests.signedHost)}"
         (now, s!"{l1} | {l2}")
       | _, _, _, _, _, _, _ => (now, "bad-op")
   | ["svc", keyId, secret, region, svc, body] =>
@@ -180,8 +160,8 @@ def step (now : St) (toks : List String) : St × String :=
           | none => "fail"
           | some (_, ts) =>
             let sha := hex (Sha256.hash (body.getD []))
-            let req := svcRequest (v ++ ascii "." ++ r ++ ascii ".amazonaws.com") body ts sha []
-            showHeaders sha ts (authorization k s ts r v req signed3)
+            showHeaders sha ts (authorization k s ts r v (AwsRequests.svc r v body ts sha (clen body))
+              AwsRequests.signedBasic)
         (now, s!"{l1} | {l2}")
       | _, _, _, _, _ => (now, "bad-op")
   | ["ddb", keyId, secret, region, op, body] =>
@@ -194,11 +174,8 @@ def step (now : St) (toks : List String) : St × String :=
           | none => "fail"
           | some (_, ts) =>
             let sha := hex (Sha256.hash (body.getD []))
-            let req := svcRequest (ascii "dynamodb." ++ r ++ ascii ".amazonaws.com") body ts sha
-              [(ascii "X-Amz-Target", ascii "DynamoDB_20120810." ++ o),
-               (ascii "Content-Type", ascii "application/x-amz-json-1.0")]
-            showHeaders sha ts (authorization k s ts r (ascii "dynamodb") req
-              (signed3 ++ [ascii "X-Amz-Target"]))
+            showHeaders sha ts (authorization k s ts r (ascii "dynamodb")
+              (AwsRequests.dynamodb r o body ts sha (clen body)) AwsRequests.signedDynamodb)
         (now, s!"{l1} | {l2}")
       | _, _, _, _, _ => (now, "bad-op")
   | _ => (now, "bad-op")
